@@ -397,4 +397,9 @@ example : refLibc.IntRef ∧
     intInc (.int true INT64_MAX) 1 = .ok (1, .int false 9223372036854775808) := by
   refine ⟨⟨fun _ => rfl, fun _ => rfl⟩, by decide, by decide, by decide, by decide, by decide, by decide, rfl, rfl⟩
 
+
+/-- every source fact this property's model consumes was located in the current source by tools/extract (a fact that is not
+found is emitted with a placeholder value; this obligation then fails and the check uses the reference model) -/
+theorem source_facts_located_c10 : JsonC.Generated.factsFound_num = true := by decide
+
 end JsonC.Num
